@@ -16,6 +16,14 @@ E4  random and PCT controlled schedules of random contract-abiding programs (2-4
     lock/unlock segments each, incl. upgrade with a single write-locking thread, downgrade,
     spurious futex returns), validated the same way.  A deadlock of the real code shows as a
     `Deadlock` event: the driver run is reported and the trace is rejected.
+E5  free-running rounds (harness/drv/rwlock_stress.h): real threads, real futex, no controller (the
+    hook points are inert), on RWLock and UnalignedRWLock: 2-4 threads hammer one lock with every
+    operation of the contract (lock_upgrade by the single write-locking thread of its batch); the
+    protected data are two plain counters.  One observation record per batch of rounds (torn
+    reader snapshots, torn / lost writer updates, final counters, try results, quiescent probes
+    through try_lock / try_lock_shared, watchdog) validated by TLC against spec/rwlock/RWLockObs.tla
+    (exclusion, no lost update, quiescent zero, progress - whatever the interleaving INSIDE the steps
+    of RWLock.tla, which E2-E4 cannot vary).
 """
 import glob
 import json
@@ -277,6 +285,33 @@ def validate_all(ctx, specdir, tracemodule, parts, what, together):
                      timeout=1500)
 
 
+def free_running(ctx, exe, what, locks):
+    """E5: free-running batches of the driver's --stress mode, one record per batch, validated by
+    spec/rwlock/RWLockObs.tla (shared by C22 and C23).  The driver stops starting new batches when its
+    wall-clock budget is used up (a loaded machine gives fewer rounds, never another verdict); a hang
+    of the real code is reported by the driver's watchdog as a record with "stuck":1."""
+    thorough = ctx.tier == 'thorough'
+    rounds = 80000000 if thorough else 4000000
+    ms = 60000 if thorough else 3500
+    obs = os.path.join(ctx.work, 'stress.ndjson')
+    tot, _ = ctx.driver(exe, ['--out', obs, '--stress', rounds, '--seed', ctx.seed, '--ms', ms], what,
+                        label='free-running rounds on ' + locks, allow_incomplete=True, timeout=ms // 1000 + 120)
+    batches = sum(1 for _ in open(obs)) if os.path.exists(obs) else 0
+    ctx.validate('spec/rwlock', 'RWLockObs.tla', 'RWLockObs.cfg', obs, what, executions=batches,
+                 label='free-running batches: exclusion, no lost update, quiescent zero, progress', timeout=1500)
+    clean_tlc_droppings('spec/rwlock')
+    ctx.cov['free_running_rounds'] = tot.get('executions', 0)
+    ctx.cov['free_running_batches'] = batches
+    ctx.sample_trace(obs, 2)
+    ctx.assumptions.append(
+        'free-running rounds (E5) on %s: real threads and futex, no controlled scheduler; observed per batch (128 '
+        'barrier-started rounds, or 1024 programs per thread run back to back): reader snapshots of two plain counters '
+        'with a != b, writer sections that found them torn or overwritten, final counters against the number of write '
+        'sections, try_lock / try_lock_shared results, try_lock + try_lock_shared probes whenever the lock is '
+        'quiescent, lock words after the batch; a thread counts as stuck if the batch has not finished after 10 s of '
+        'wall time' % locks)
+
+
 # ------------------------------------------------------------------------------------- C22
 def run(ctx):
     thorough = ctx.tier == 'thorough'
@@ -329,6 +364,8 @@ def run(ctx):
     validate_all(ctx, SPEC, 'RWLockTrace', [('cover replay', ctr, cex), ('random schedules', rtr, rex)], WHAT,
                  together=not thorough)
     clean_tlc_droppings(SPEC)
+    # E5 ------------------------------------------------------------------------------------------
+    free_running(ctx, exe, WHAT, 'RWLock and UnalignedRWLock')
     ctx.assumptions += [
         'TLA+ interleaving semantics are sequentially consistent (weak-memory effects are C10)',
         'programs stay inside the documented contract: no recursive locking, unlock only by the holder, '
